@@ -198,8 +198,21 @@ pub fn generate(seed: u64, w: &World, with_big: bool, with_stalls: bool) -> Valu
         // a slow but live server: 0.5-1.5 s before the first byte and between segments. The reply
         // is good, so the run must succeed (real time; far below the client's 30 s timeout)
         let mut r = reply(&mut rng, 200, served.clone(), true);
-        r["delay_ms"] = json!(*rng.pick(&[500u64, 900, 1500]));
-        r["segments"] = json!(rng.range(1, 3));
+        // ... or, in half of these runs, 6.5 s before the only segment / 12 segments 0.7 s apart
+        match rng.below(4) {
+            0 => {
+                r["delay_ms"] = json!(6500u64);
+                r["segments"] = json!(1);
+            }
+            1 => {
+                r["delay_ms"] = json!(700u64);
+                r["segments"] = json!(12);
+            }
+            _ => {
+                r["delay_ms"] = json!(*rng.pick(&[500u64, 900, 1500]));
+                r["segments"] = json!(rng.range(1, 3));
+            }
+        }
         r
     } else if with_stalls && seed % (simcore::env_usize("VERIF_C20_STALL_MOD", 997) as u64) == 0 {
         // the endpoint goes silent: nothing, a partial head, or a partial body, then no more bytes.
@@ -222,7 +235,7 @@ pub fn generate(seed: u64, w: &World, with_big: bool, with_stalls: bool) -> Valu
             3 => json!({"kind": "close-early", "after": *rng.pick(&[0usize, 5, 64]), "rst": rng.chance(1, 2), "https": true}),
             4 | 5 => {
                 // non-2xx with JSON, text or empty body
-                let status = *rng.pick(&[400u16, 401, 403, 404, 405, 418, 429, 500, 502, 503, 504, 301, 302, 304]);
+                let status = *rng.pick(&[400u16, 401, 403, 404, 405, 418, 429, 500, 502, 503, 504, 301, 302, 304, 599, 600, 742, 999]);
                 let body = match rng.below(3) {
                     0 => served.clone(),
                     1 => json!({"kind": "json", "text": *rng.pick(&JSON_BODIES)}),
@@ -296,7 +309,7 @@ pub fn generate(seed: u64, w: &World, with_big: bool, with_stalls: bool) -> Valu
 
 fn reply(rng: &mut Rng, status: u16, body: Value, plain: bool) -> Value {
     let unusual = !plain || rng.chance(1, 2);
-    let status = if plain && unusual && rng.chance(1, 4) { *rng.pick(&[201u16, 202, 203, 206]) } else { status };
+    let status = if plain && unusual && rng.chance(1, 4) { *rng.pick(&[201u16, 202, 203, 206, 226, 299]) } else { status };
     let framing = if unusual { *rng.pick(&["cl", "chunked", "close"]) } else { "cl" };
     let http10 = unusual && framing != "chunked" && rng.chance(1, 6);
     json!({
